@@ -49,7 +49,11 @@ def main(argv=None):
     try:
         mod.run(ctx)
     except Exception as e:  # noqa: BLE001
-        if exc_origin(e) == "lib":
+        from vf.core.par import LibAbort
+        if isinstance(e, LibAbort):
+            for k, v in e.acc.violations.items():
+                ctx.violation("%s/%s" % (pid, k), v[0], v[1])
+        elif exc_origin(e) == "lib":
             # the library raised where the unchanged tree does not: a behaviour change, reported as a violation
             ctx.violation("%s/check-aborted/%s/%s" % (pid, type(e).__name__, exc_site(e)),
                           "library raised %s inside the check driver: %s" % (type(e).__name__, str(e)[:300]),
